@@ -87,7 +87,7 @@ func (b *exampleBuilder) buildExampleForObjectNode(node *ischema.ObjectNode) ([]
 
 func (b *exampleBuilder) buildObjectKey(k ischema.ObjectNodeKey) ([]byte, error) {
 	if !k.IsShortcut {
-		return []byte(k.Key), nil
+		return objectKeyLiteral(k), nil
 	}
 
 	typ, ok := b.types[k.Key]
@@ -100,6 +100,19 @@ func (b *exampleBuilder) buildObjectKey(k ischema.ObjectNodeKey) ([]byte, error)
 		return nil, err
 	}
 	return stdBytes.Trim(ex, `"`), nil
+}
+
+// objectKeyLiteral returns the key as it has to appear between the quotation
+// marks in JSON. k.Key is the decoded key: writing it back verbatim turns a
+// key such as "a\"b" into broken JSON, so the escaped spelling of the source
+// is used.
+func objectKeyLiteral(k ischema.ObjectNodeKey) []byte {
+	if k.Lex.File() != nil {
+		if raw := k.Lex.Value(); raw.InQuotes() {
+			return raw.Sub(1, raw.Len()-1).Data()
+		}
+	}
+	return []byte(k.Key)
 }
 
 func (b *exampleBuilder) buildExampleForArrayNode(node *ischema.ArrayNode) ([]byte, error) {
@@ -197,7 +210,7 @@ func buildExampleForObjectNode(
 	for i, childNode := range children {
 		key := node.Key(i)
 		b.WriteByte('"')
-		b.WriteString(key.Key)
+		b.Write(objectKeyLiteral(key))
 		b.WriteString(`":`)
 
 		ex, err := buildExample(childNode, types)
